@@ -8,6 +8,7 @@ import TantivyModel.Proofs.GrammarCharsPrintList
 import TantivyModel.Proofs.GrammarCharsNested
 import TantivyModel.Proofs.GrammarCharsBoost
 import TantivyModel.Proofs.GrammarCharsText
+import TantivyModel.Proofs.GrammarFoldSafe
 import TantivyModel.Model.Grammar.Agree
 /-!
 # C16 — The query parser is total and implements its documented grammar
@@ -400,16 +401,25 @@ example :
     keywords, no markers, every `xᵢ` an item of `C16_print_parse_boosted`, `n ≥ 1`) the strict parser
     accepts the text, and the tree it returns means the OR over the maximal AND-runs of the
     operands' meanings — whenever the operands resolve (`isDead … = false`) and `rewrite_ast` is
-    meaning-preserving on the folded tree (`safeWith`, decidable, see `C16_rewrite_preserves_sem`). -/
+    meaning-preserving on the operands' own trees (`safeWith`, decidable and true for every leaf, see
+    `C16_rewrite_preserves_sem`; for the folded chain itself it is proved, `C16_chain_rewrite_safe`). -/
 theorem C16_text_precedence {T : Type} (guard : Bool) (lead k : Nat) (o : Opd) (ops : List (BinOp × Opd × Nat × Nat))
     (hne : ops ≠ []) (ho : ∃ b, WFB b o) (hm : ∀ x ∈ ops, ∃ b, WFB b x.2.1)
     (m : Mode) (res : CLeaf → LAst T) (v : T → Bool)
     (hd0 : isDead (toLogical m res o.leaf) = false)
     (hdr : ∀ x ∈ ops, isDead (toLogical m res x.2.1.leaf) = false)
-    (hsafe : safeWith m false (listTree none o (opItems ops)) = true) :
+    (hs0 : safeWith m false o.leaf = true)
+    (hsr : ∀ x ∈ ops, safeWith m false x.2.1.leaf = true) :
     ∃ t, parseStrictWith guard (printList lead none o (opItems ops) k []) = .tree t
       ∧ semAst m res v t
         = orOfAnds (semAst m res v o.leaf) (ops.map fun x => (x.1, semAst m res v x.2.1.leaf)) := by
+  have hsafe : safeWith m false (listTree none o (opItems ops)) = true := by
+    rw [listTree_chain o ops hne, lenientFold_map_rawOf _ (by rfl)]
+    exact chain_safe m res v o.leaf _ hs0 (by
+      intro y hy
+      simp only [List.mem_map] at hy
+      obtain ⟨x, hx, rfl⟩ := hy
+      exact hsr x hx)
   refine ⟨rewrite (listTree none o (opItems ops)), ?_, ?_⟩
   · refine C16_print_parse_boosted guard lead none o (opItems ops) k ho ?_
     intro it hi
@@ -424,12 +434,25 @@ theorem C16_text_precedence {T : Type} (guard : Bool) (lead k : Nat) (o : Opd) (
       exact hdr x hx)
     simpa [List.map_map, Function.comp_def] using this
 
-/-- `a AND b  OR c`: the hypotheses hold (words resolve, `rewrite_ast` is safe on the folded tree) -/
+/-- **`rewrite_ast` is safe on folded chains**: the tree folded from `a₀ op₁ a₁ … opₙ aₙ` satisfies
+    the side condition of `C16_rewrite_preserves_sem` as soon as the operands' own trees do (every
+    entry of the folded tree carries an explicit occur, so nothing is unwrapped with a changed occur) -/
+theorem C16_chain_rewrite_safe [DecidableEq L] (m : Mode) (res : L → LAst T) (v : T → Bool) (a0 : Ast L)
+    (rest : List (BinOp × Ast L)) (h0 : safeWith m false a0 = true)
+    (hr : ∀ x ∈ rest, safeWith m false x.2 = true) :
+    safeWith m false (lenientFold ((chainFrom none a0 rest).map rawOf)).1 = true := by
+  rw [lenientFold_map_rawOf _ (by rfl)]
+  exact chain_safe m res v a0 rest h0 hr
+
+example : safeWith .orDefault false
+    (lenientFold ((chainFrom none (.leaf 1 : Ast Nat) [(.and, .leaf 2), (.or, .leaf 3)]).map rawOf)).1 = true := rfl
+
+/-- `a AND b  OR c`: the hypotheses hold (words resolve, `rewrite_ast` is safe on the leaves) -/
 example :
     let o := wordOpd ['a']
     let ops : List (BinOp × Opd × Nat × Nat) := [(.and, wordOpd ['b'], 0, 0), (.or, wordOpd ['c'], 1, 0)]
     printList 0 none o (opItems ops) 0 [] = ['a', ' ', 'A', 'N', 'D', ' ', 'b', ' ', ' ', 'O', 'R', ' ', 'c']
-    ∧ safeWith .orDefault false (listTree none o (opItems ops)) = true
+    ∧ safeWith .orDefault false o.leaf = true
     ∧ isDead (toLogical .orDefault LAst.leaf o.leaf) = false := ⟨by decide, rfl, rfl⟩
 
 /-- the tree of a printed list is the strict fold of the operands' trees (the subject of the
